@@ -233,6 +233,10 @@ func GenFacet(t *rapid.T, label string, name string, nums []float64, dates []tim
 			f.Prefix = rapid.SampledFrom([]string{"a", "ab", "x", "b"}).Draw(t, label+".prefix")
 		case 1:
 			f.Pattern = rapid.SampledFrom([]string{"^a.*", "b$", "^ab[cd]$", "a"}).Draw(t, label+".pattern")
+		case 2:
+			// both filters at once (a term must pass both)
+			f.Prefix = rapid.SampledFrom([]string{"a", "ab", "x", "b"}).Draw(t, label+".prefix")
+			f.Pattern = rapid.SampledFrom([]string{"^a.*", "b$", "^ab[cd]$", "a", "c"}).Draw(t, label+".pattern")
 		}
 		nb := bucketsOf(f)
 		f.Size = rapid.SampledFrom([]int{0, 1, nb - 1, nb, nb + 3}).Draw(t, label+".size")
